@@ -250,3 +250,9 @@ Arguments GoErrVal {E} e.
 
 (* maps with string keys (units with StrMaps): the list of insertions in order; m[k] = v appends *)
 Definition go_smap_put {V} (m : list (list N * V)) (k : list N) (v : V) : list (list N * V) := m ++ [(k, v)].
+
+(* context.WithTimeout(ctx, d) as an emission of a unit whose output is the list of timers armed *)
+Definition go_arm (d : Z) : list Z := [d].
+
+(* tagged emissions of a unit whose output is a list of actions (tag, value) *)
+Definition go_tag (t v : Z) : list (Z * Z) := [(t, v)].
